@@ -54,6 +54,8 @@ type Item struct {
 	// race
 	Ops     []RaceSec `json:"ops,omitempty"`
 	Creates []RaceSec `json:"cr,omitempty"`
+	// NoFooter: the closing separator of the race report is missing (malformed).
+	NoFooter bool `json:"nofooter,omitempty"`
 }
 
 // Doc is a whole stream.
@@ -93,6 +95,9 @@ type DumpInfo struct {
 	// FirstLine, LastLine index into Stream.Lines.
 	FirstLine, LastLine int
 	Indent              string
+	// NoFooter: a race report whose closing separator is missing (malformed);
+	// like a goroutine dump it then swallows one following blank line.
+	NoFooter bool
 }
 
 // Stream is a rendered Doc.
@@ -192,7 +197,7 @@ func Render(d *Doc) *Stream {
 			if eol == "" {
 				eol = "\n"
 			}
-			di := DumpInfo{Item: ii, Race: true, Start: b.Len(), FirstLine: len(s.Lines)}
+			di := DumpInfo{Item: ii, Race: true, Start: b.Len(), FirstLine: len(s.Lines), NoFooter: it.NoFooter}
 			add("=================="+eol, Dump, ii, -1, false)
 			add("WARNING: DATA RACE"+eol, Dump, ii, -1, false)
 			di.OpEnd = make([]int, len(it.Ops))
@@ -228,7 +233,9 @@ func Render(d *Doc) *Stream {
 			if it.NoEOL {
 				e = ""
 			}
-			add("=================="+e, Dump, ii, -1, false)
+			if !it.NoFooter {
+				add("=================="+e, Dump, ii, -1, false)
+			}
 			di.End = b.Len()
 			di.LastLine = len(s.Lines) - 1
 			s.Dumps = append(s.Dumps, di)
